@@ -94,6 +94,10 @@ func H_C08_endings() {
 	v := vNewSrv(opts...)
 	nc := vNetConn("c1")
 	inflight := vLen("inflight", 2)
+	if inflight > 0 && vBool("clientNotReading") {
+		// the client stops reading: responses block in Write until a deadline or close
+		vConnSet(nc, "writeBlock", true)
+	}
 	gates := []*vGateT{vGate("h1"), vGate("h2")}
 	var mu sync.Mutex
 	running, finished := 0, 0
@@ -432,6 +436,9 @@ func H_C12_orders() {
 	}) == nil)
 	nc := vNetConn("c1")
 	vConnFeed(nc, vWire(refEnvelope(1, refDeleteOp(), nil)))
+	if vBool("clientNotReading") {
+		vConnSet(nc, "writeBlock", true)
+	}
 	twice := vBool("stopTwice")
 	switch order {
 	case ordBeforeRun:
